@@ -8,12 +8,16 @@ _T = ["ietf_macData_eq_rfc", "combined_eq_detached", "roundtrip_detached", "roun
       "secretbox_detached_eq_spec", "secretbox_easy_eq", "secretbox_roundtrip", "nacl_box_eq_easy", "nacl_open_box"]
 THEOREMS = vcore.theorems_in("SodiumModel/Properties/C01.lean", _T, "Sodium.C01")
 IMPORTS = ["SodiumModel.Properties.C01"] if THEOREMS else ["SodiumModel.Model.Aead"]
+# the portable AEGIS code (aegis*_common.h over the SoftAesBlock backend, softaes.c's table-based round) modelled in the C's structure and proved = Spec at every length
+THEOREMS = THEOREMS + vcore.theorems_in("SodiumModel/Properties/C01Aegis.lean", ['softaes_block_encrypt_is_aes_round', 'softaes_block_encrypt_bytes', 'aes_lut_from_sbox', 'ct_lookup_exact', 'soft_backend_ok', 'softaes_load_store', 'softaes_load64x2_order', 'aegis128l_update_eq', 'aegis256_update_eq', 'aegis128l_init_eq', 'aegis128l_absorb_eq', 'aegis128l_enc_eq', 'aegis128l_dec_eq', 'aegis128l_declast_eq', 'aegis128l_mac_eq', 'aegis256_init_eq', 'aegis256_absorb_eq', 'aegis256_enc_eq', 'aegis256_dec_eq', 'aegis256_declast_eq', 'aegis256_mac_eq', 'aegis128l_encrypt_detached_eq', 'aegis256_encrypt_detached_eq', 'aegis128l_encrypt_detached_generic', 'aegis256_encrypt_detached_generic', 'aegis128l_decrypt_detached_eq', 'aegis256_decrypt_detached_eq', 'aegis128l_decrypt_detached_32', 'aegis256_decrypt_detached_32', 'decrypt_detached_failure_output', 'decrypt_detached_bad_maclen', 'aegis128l_decrypt_detached_rc', 'aegis256_decrypt_detached_rc', 'aegis128l_spec_roundtrip', 'aegis256_spec_roundtrip', 'aegis128l_output_lengths', 'aegis256_output_lengths', 'aegis128l_roundtrip', 'aegis256_roundtrip', 'messagebytes_max', 'crypto_aead_aegis128l_encrypt_detached_eq', 'crypto_aead_aegis256_encrypt_detached_eq', 'crypto_aead_encrypt_combined', 'crypto_aead_aegis128l_encrypt_eq', 'crypto_aead_aegis256_encrypt_eq', 'crypto_aead_aegis128l_decrypt_detached_eq', 'crypto_aead_aegis256_decrypt_detached_eq', 'crypto_aead_decrypt_short', 'crypto_aead_decrypt_combined', 'crypto_aead_aegis128l_decrypt_eq', 'crypto_aead_aegis256_decrypt_eq'], "Sodium.C01Aegis")
+IMPORTS = IMPORTS + ["SodiumModel.Properties.C01Aegis"]
+FINGERPRINTS = "C01"     # Tie B: pinned source text of the transcribed AEGIS / softaes files (tools/fingerprint.py)
 RULE = ("encrypt ops for ChaCha20-Poly1305 (orig, IETF), XChaCha20-Poly1305, AES-256-GCM, AEGIS-128L/256, secretbox (XSalsa20 / XChaCha20), "
         "NaCl zero-padded form and box precomputation: every message length 0..2100 for the IETF AEAD and secretbox, sampled/boundary lengths "
         "for the others, ad lengths 0..70; the harness additionally requires detached = combined, easy = mac||detached and decrypt(encrypt) = m "
         "in both forms for every case; configurations = CPU masks and build variants")
 ASSUMPTIONS = ["block / round / MAC primitives are parameters of the theorems, tied to the specs by correspondence (C03, C04); AES-256-GCM and AEGIS are compared "
-               "against the executable SP 800-38D / AEGIS-draft specification only (no structural model of the AES-NI code)"]
+               "against the executable SP 800-38D / AEGIS-draft specification on the AES-NI backends; the portable AEGIS code (generic *_common.h + table-based software AES) is modelled and proved (C01Aegis)"]
 AEADS = [("chachapoly", 32, 8), ("chachapoly_ietf", 32, 12), ("xchachapoly", 32, 24), ("aes256gcm", 32, 12), ("aegis128l", 16, 16), ("aegis256", 32, 32)]
 
 
